@@ -96,7 +96,7 @@ fn check(qs: &[OQuad], what: &str) -> u64 {
     }
     2
 }
-fn t(x: &OTerm) -> String { match x { OTerm::Iri(i) => format!("<{}>", i), OTerm::Bnode(b) => format!("_:{}", b), OTerm::Lit(l) => format!("\"{}\"", l) } }
+fn t(x: &OTerm) -> String { crate::oracle::nq_term(x, &|b| b.to_string()) }
 fn line(q: &OQuad) -> String { let mut s = format!("{} {} {}", t(&q.s), t(&q.p), t(&q.o)); if let Some(g) = &q.g { s.push(' '); s.push_str(&t(g)); } s.push_str(" .\n"); s }
 fn fmt(qs: &[OQuad]) -> String { qs.iter().map(line).collect::<Vec<_>>().concat() }
 
@@ -158,6 +158,15 @@ pub fn main_rdfc(deep: bool) {
         n += check(&back, &format!("{} pairs chained into a ring by a second predicate", k));
         let named: Vec<OQuad> = (0..k).map(|i| edge(10 + i, 20 + i, Some(b(30 + i)))).collect();
         n += check(&named, &format!("{} disjoint pairs, each in its own blank graph", k));
+    }
+    // literals whose canonical form needs (or must NOT use) escapes: they also enter the first-degree hashes
+    for (i, txt) in ["\u{8}\t\n\u{c}\r\"\\", "\u{0}\u{1}\u{7}", "\u{b}\u{e}\u{1f}", "\u{7f}", "\u{80}", "\u{85}\u{90}\u{9f}", "\u{a0}\u{e9}\u{2028}", "\u{1f600}", " ", "a b"].iter().enumerate() {
+        let d = vec![
+            OQuad { s: b(1), p: iri("x:p"), o: OTerm::Lit(txt.to_string()), g: None },
+            OQuad { s: b(2), p: iri("x:p"), o: OTerm::Lit(format!("{}x", txt)), g: None },
+            OQuad { s: b(1), p: iri("x:q"), o: b(2), g: Some(iri("x:g")) },
+        ];
+        n += check(&d, &format!("literal with special characters #{}", i));
     }
     // clusters of more than 10 blank nodes that all go through Hash N-Degree Quads (temporary identifiers b10,
     // b11, ... sort differently as strings and as numbers): long cycles, two identical rdf:Lists
